@@ -8,7 +8,7 @@ import ast
 import os
 
 from ..core.loader import dotted
-from ..core.terms import (c, evaluate, fn_name, kw, n, pretty, subterms, unwrap_callable)
+from ..core.terms import (cmp_, not_, pc, phi_, c, evaluate, fn_name, kw, n, pretty, subterms, unwrap_callable)
 from ..domains.defassign import analyse_function
 from ..domains.keys import KeyAnalysis
 from .common import LIB_FACTS, is_call, method, short
@@ -418,8 +418,8 @@ def check(ctx):
         if v[0] == "phi":
             condt, a, b = v[1], v[2], v[3]
             mc = n("multiple_chains")
-            rep_t, per_t = (a, b) if condt == ("u", "not", mc) else (
-                (b, a) if condt == mc else (None, None))
+            # (canonical phi: the condition carries no negation)
+            rep_t, per_t = (b, a) if condt == mc else (None, None)
             ok_s = (per_t == n("model_state") and rep_t is not None
                     and is_call(rep_t, "liesel.goose.pytree.stack_leaves")
                     and any(x == ("a", n("self"), "_num_chains") for x in subterms(rep_t))
